@@ -2318,7 +2318,7 @@ def p1_prefix_discipline(fb, R):
                                     if c.get('k') == 'call' and c.get('u') and fb.by_usr.get(c['u']) and fn.elem_dominates(a['id'], c['id']) \
                                             and any(x is not None and (fn.sn(x) or {}).get('k') == 'var' and (fn.sn(x) or {}).get('d') == sv['d'] for x in c.get('args', [])):
                                         extra.append((c['id'], K))
-            bad, reads = PrefixFlow(fn, d).run(extra)
+            bad, reads = PrefixFlow(fn, d, fb).run(extra)
             if not reads:
                 continue
             msg = ''
@@ -2546,6 +2546,7 @@ def _selftest(fb, R):
         g8_throw_types(fb, R)
         g9_utf8(fb, R)
         nul_layout(fb, R)
+        p1_prefix_discipline(fb, R)
         a1_who_may_abort(fb, R)
         a1_abort_premise(fb, R)
     finally:
@@ -2558,7 +2559,7 @@ SELFTESTS = [(r, 'c03_guards.cpp', _selftest) for r in (
     'G6-member-type-range-checked', 'G7-expat-callbacks-contained', 'G7-expat-exception-stored-and-parser-stopped', 'G7-expat-handler-not-run-after-error',
     'G7-expat-entity-declarations-rejected', 'G7-expat-parse-error-rethrows-stored-first', 'G8-throws-std-exception',
     'G9-utf8-length-test-before-continuation', 'G9-utf8-case-reads-its-length', 'NUL-tag-strings-have-no-interior-nul',
-    'A1-who-may-abort', 'A1-abort-unreachable-premise')]
+    'A1-who-may-abort', 'A1-abort-unreachable-premise', 'P1-fixed-position-read-after-prefix-validated')]
 
 
 def _selftest_xml(fb, R):
